@@ -2,6 +2,6 @@
 # exp.sh <dir-with-patch.diff> [props]: apply the patch in the experiment worktree /tmp/exp (never /repo) and run the checks there
 d=$1; props=${2:-all}
 [ -d /tmp/exp ] || git -C /repo worktree add -q --detach /tmp/exp HEAD
-git -C /tmp/exp checkout -q -- . && git -C /tmp/exp clean -fdq
+git -C /tmp/exp checkout -q -- . && git -C /tmp/exp clean -fdq && git -C /tmp/exp checkout -q --detach $(git -C /repo rev-parse HEAD)
 git -C /tmp/exp apply $d/patch.diff || { echo "patch does not apply"; exit 2; }
 /verif/bin/dnsverif -repo /tmp/exp/dnsrocks -prop $props -no-evidence 2>&1 | grep -E "UNDECIDED|: C[0-9][0-9]\.[a-z0-9-]+: |rror" | grep -v "^VIOLATION" | cut -c1-${CUT:-400}
